@@ -168,6 +168,7 @@ pub fn skeleton(p: &Prog) -> Skel {
                     pw[*loc as usize].push(i)
                 }
                 Op::Fence { .. } | Op::CellRead { .. } | Op::CellWrite { .. } | Op::UnsyncLoad { .. } => {}
+                Op::CellHold { .. } => unreachable!("expanded before the oracle"),
             }
         }
     }
@@ -256,6 +257,7 @@ fn evaluate(sk: &Skel, rf: &[usize]) -> Option<Vec<Ev>> {
                 Some(Op::CellRead { c }) => Ev { tid, kind: Kind::NR, loc: None, ord: Ord_::Rlx, wval: 0, rval: 0, cell: Some(c) },
                 Some(Op::CellWrite { c }) => Ev { tid, kind: Kind::NW, loc: None, ord: Ord_::Rlx, wval: 0, rval: 0, cell: Some(c) },
                 Some(Op::UnsyncLoad { loc }) => Ev { tid, kind: Kind::NR, loc: None, ord: Ord_::Rlx, wval: 0, rval: 0, cell: Some(100 + loc) },
+                Some(Op::CellHold { .. }) => unreachable!("expanded before the oracle"),
             };
             evs[i] = Some(ev);
             done += 1;
@@ -794,6 +796,7 @@ pub fn outcomes_sc(p: &Prog) -> (BTreeSet<Vec<u64>>, bool) {
                 mem[loc as usize] = v.wrapping_add(add);
             }
             Op::Fence { .. } | Op::CellRead { .. } | Op::CellWrite { .. } | Op::UnsyncLoad { .. } => {}
+            Op::CellHold { loc, val, .. } => mem[loc as usize] = val,
         }
     }
     fn go(s: &mut S, pcs: &mut Vec<usize>, mem: &mut Vec<u64>, reads: &mut Vec<Vec<u64>>) {
